@@ -31,6 +31,18 @@ func count(key string) { stats.Counts[key]++ }
 type genFunc func(emit func(string), tier string, rng *Rng)
 
 var families = map[string]genFunc{}
+
+// regens: translators that need the compiled repository (fitharness regen <name> <out.lean>)
+var regens = map[string]func() (string, error){}
+
+func writeIfChanged(path string, content string) error {
+	old, err := os.ReadFile(path)
+	if err == nil && string(old) == content {
+		return nil
+	}
+	return os.WriteFile(path, []byte(content), 0o644)
+}
+
 var executors = map[string]func(args []string) string{}
 
 func execLine(line string) (out string) {
@@ -69,6 +81,24 @@ func main() {
 		}
 		sort.Strings(names)
 		fmt.Fprintln(w, strings.Join(names, "\n"))
+	case "regen":
+		if len(os.Args) != 4 {
+			fmt.Fprintln(os.Stderr, "usage: fitharness regen <name> <out.lean>")
+			os.Exit(2)
+		}
+		f, ok := regens[os.Args[2]]
+		if !ok {
+			fmt.Fprintln(os.Stderr, "unknown regen", os.Args[2])
+			os.Exit(2)
+		}
+		content, err := f()
+		if err == nil {
+			err = writeIfChanged(os.Args[3], content)
+		}
+		if err != nil {
+			fmt.Fprintln(os.Stderr, err)
+			os.Exit(1)
+		}
 	case "exec":
 		sc := bufio.NewScanner(os.Stdin)
 		sc.Buffer(make([]byte, 1<<20), 1<<28)
